@@ -3,9 +3,10 @@ use crate::infra::PropDef;
 
 pub mod c04;
 pub mod c18;
+pub mod c19;
 
 pub fn all() -> &'static [PropDef] {
-    static ALL: &[PropDef] = &[c04::DEF, c18::DEF];
+    static ALL: &[PropDef] = &[c04::DEF, c18::DEF, c19::DEF];
     ALL
 }
 
